@@ -109,18 +109,24 @@ PROPS['C02'] = dict(
     id='C02',
     domains=['build'],
     n=dict(quick=3000, thorough=120000),
-    theorems=[('Properties.C02', [])],
+    theorems=[('Properties.C02', ['C02_digests_are_computed_over_the_serialized_bytes', 'C02_format_is_hash_of_fed_bytes', 'C02_base16_round_trip', 'C02_record_id_is_bracketed'])],
     kinds={'panic', 'untruthful-length', 'untruthful-block-digest', 'untruthful-payload-digest', 'bad-record-id', 'stale-length-after-wfblock-repair', 'id-repeats'},
-    rule='TODO', level_text='TODO', level_note='TODO',
+    rule='build: builder runs over 27 policy triples x block policy x skip-parse-block x add/fix flags x 4 algorithms x 3 encodings x both versions, all record types, generic/HTTP (incl. missing terminator, unparsable start line)/warc-fields (incl. malformed) contents, 1-3 feeds by Write/WriteString/ReadFrom(7-byte chunks), thresholds 1..size+1, supplied or missing id/length/digest; executable statement: added Content-Length = bytes serialized, added digests = independently computed digests (Go crypto) of block and payload, id bracketed; extra: 4000 ids from 8 goroutines distinct and well-formed',
+    level_text='Proved in Coq: for every option setting, record type, header set and content, the digests ValidateDigest formats have been fed exactly the block that gets serialized and exactly the payload (C02_digests_are_computed_over_the_serialized_bytes), their text is algorithm:encoding(hash(bytes fed)), base16 decodes back in either case, the generated id is bracketed. "However fed, wherever the threshold falls" is discharged by C14. PARTIAL: that the Content-Length and digest FIELDS of the built record equal those values end-to-end through Build is not yet one theorem; it is the executable statement evaluated on every generated build, and the Build model agrees with the implementation on all of them. Uniqueness of generated ids is probabilistic (uuid.New) and only tested.',
+    level_note='Trusted: Coq kernel, extraction (ExtrOcamlBasic), harness and generators. Oracles: hash functions (Python hashlib), base32/base64 decoders, mime.WordDecoder, net/http header parsing, whatwg-url, net.ParseIP, time.Parse, Unicode case mapping; klauspost gzip (a member is its payload; a cut member yields a payload prefix then io.ErrUnexpectedEOF). bufio.Reader is remaining bytes + a persistent tail condition. Findings are compared by coarse kind derived from error texts. Known finding: with WithFixWarcFieldsBlockErrors(true) under spec ignore the rewritten warc-fields block leaves a stale Content-Length.',
+    assumptions=[],
 )
 
 PROPS['C05'] = dict(
     id='C05',
     domains=['unm', 'hparse', 'build'],
     n=dict(quick=dict(unm=2500, hparse=1500, build=1000), thorough=dict(unm=100000, hparse=50000, build=40000)),
-    theorems=[('Properties.C05', [])],
+    theorems=[('Properties.C05', ['C05_header_parser_terminates_and_only_consumes', 'C05_read_line_makes_progress'])],
     kinds={'panic', 'hang', 'no-progress', 'memory', 'crash'},
-    rule='TODO', level_text='TODO', level_note='TODO',
+    rule='unm: plain and per-record-gzip streams from 1-3 generated records with byte flips, truncation, dropped trailers, junk, wrong and hostile (2^62, 2^63-1) lengths, bare-LF line ends, odd versions, EOF or injected read error, source chunkings 0/1/5/100, cut gzip members (every item stream read to the first error through WarcFileReader under a watchdog, with allocation measured); hparse: header sections incl. 9 KB ones; build: arbitrary content and headers. Executable statement: no panic, no crash, return within 5 s, allocation <= 48 MB + 200 x input, every Next consumes input or errors',
+    level_text='PARTIAL by nature (time and heap are runtime quantities). Proved in Coq: the header parser (used for record headers and warc-fields blocks) never exhausts fuel = input length + 2 on any input, tail condition, policy and decoder behaviour, and never leaves more of the stream than it was given; every line read consumes at least one byte or reports the end. "No panic" holds in the model by construction (total functions, no panic outcome) and every unguarded index/type assertion/nil dereference the correspondence run hit in the real parser was repaired (6 fix commits). Observed, not proved: wall-clock time, allocation, process crashes (watchdog, MemStats, crash-robust runner).',
+    level_note='Trusted: Coq kernel, extraction (ExtrOcamlBasic), harness and generators. Oracles: hash functions (Python hashlib), base32/base64 decoders, mime.WordDecoder, net/http header parsing, whatwg-url, net.ParseIP, time.Parse, Unicode case mapping; klauspost gzip (a member is its payload; a cut member yields a payload prefix then io.ErrUnexpectedEOF). bufio.Reader is remaining bytes + a persistent tail condition. Findings are compared by coarse kind derived from error texts. The model of Unmarshal outside the header parser has no loops except the junk search (fuel = stream length + 1).',
+    assumptions=[],
 )
 
 PROPS['C01'] = dict(
@@ -128,9 +134,12 @@ PROPS['C01'] = dict(
     domains=['rt', 'unm', 'build'],
     no_model={'rt': True},
     n=dict(quick=dict(rt=2500, unm=800, build=600), thorough=dict(rt=120000, unm=40000, build=30000)),
-    theorems=[('Properties.C01', [])],
+    theorems=[('Properties.C01', ['C01_header_section_round_trips', 'C01_block_framing_ignores_block_content', 'C01_marker_is_accepted_and_consumed', 'C01_marshal_layout'])],
     kinds={'panic', 'roundtrip-lossy', 'remarshal-differs', 'policy-incoherent', 'trimmed-value'},
-    rule='TODO', level_text='TODO', level_note='TODO',
+    rule='rt: 1-5 records accepted by the strict builder (all record types incl. unknown, both versions, generic/HTTP/warc-fields blocks with delimiter-imitating content, unknown fields with odd but clean values), built under a random policy, marshaled, concatenated plain or as gzip members, read back through ONE WarcFileReader under another policy (2/3 strict) with the same add/repair flags, compared (version, type, ordered fields, block) and marshaled again; spill thresholds around the block size; unm/build: model correspondence. distinct = distinct implementation observations',
+    level_text='PARTIAL proof: the stages of the round trip are theorems about the model - the header section of every well-formed field list parses back to exactly itself with no finding under every policy and whatever follows (induction over the list); framing by Content-Length ignores block content; the end-of-record marker is accepted; digests are computed over exactly the serialized bytes (C02) and defect-free records pass verification untouched (C03). The composition into one statement about parse_record (marshal r ++ rest) is not yet mechanised; it is evaluated on the implementation by the executable statement for every generated record sequence, and every stage model is tied to the code by differential runs (build, unm).',
+    level_note="Trusted: Coq kernel, extraction (ExtrOcamlBasic), harness and generators. Oracles: hash functions (Python hashlib), base32/base64 decoders, mime.WordDecoder, net/http header parsing, whatwg-url, net.ParseIP, time.Parse, Unicode case mapping; klauspost gzip (a member is its payload; a cut member yields a payload prefix then io.ErrUnexpectedEOF). bufio.Reader is remaining bytes + a persistent tail condition. Findings are compared by coarse kind derived from error texts. Reading of the text: the reader runs with the builder's add-missing/repair flags; values with edge blanks are a recorded known finding (trimmed), values with encoded-words are outside the property.",
+    assumptions=[],
 )
 
 PROPS['C03'] = dict(
@@ -138,29 +147,41 @@ PROPS['C03'] = dict(
     domains=['ver', 'build', 'unm'],
     no_model={'ver': True},
     n=dict(quick=dict(ver=3000, build=800, unm=800), thorough=dict(ver=150000, build=40000, unm=40000)),
-    theorems=[('Properties.C03', [])],
+    theorems=[('Properties.C03', ['C03_fail_reports_wrong_length', 'C03_fail_reports_wrong_block_digest', 'C03_warn_reports_and_returns', 'C03_correct_values_are_never_reported', 'C03_ignore_reports_nothing', 'C03_base16_case_insensitive'])],
     kinds={'panic', 'unreported', 'false-report', 'repair-untruthful', 'resource-payload-digest'},
-    rule='TODO', level_text='TODO', level_note='TODO',
+    rule='ver: builder and parser path, generic/HTTP/warc-fields/revisit blocks, declared Content-Length correct/shorter/longer, block and payload digests in every algorithm x encoding x letter case x name spelling (sha1, SHA1, sha-1), correct or corrupted at a random position; expectation computed independently (Go crypto + stdlib decoders, encoding-agnostic); warn and fail; repairs checked under warn',
+    level_text='Proved in Coq about ValidateDigest (the same function on the builder and parser path): under fail a disagreeing length, then a disagreeing block digest, is the error; under warn they are findings and the record is returned; correct declared values are never reported under any policy (soundness); ignore reports nothing; base16 is case-insensitive. The payload-digest clause is covered by the soundness theorem and by the executable statement (its completeness lemma mirrors the block one and is not stated separately). The defect that resource records never had their payload digest verified was found by this check and repaired.',
+    level_note='Trusted: Coq kernel, extraction (ExtrOcamlBasic), harness and generators. Oracles: hash functions (Python hashlib), base32/base64 decoders, mime.WordDecoder, net/http header parsing, whatwg-url, net.ParseIP, time.Parse, Unicode case mapping; klauspost gzip (a member is its payload; a cut member yields a payload prefix then io.ErrUnexpectedEOF). bufio.Reader is remaining bytes + a persistent tail condition. Findings are compared by coarse kind derived from error texts. "Disagrees" is at the level of decoded bytes; the base32/base64 decoders are oracles.',
+    assumptions=[],
 )
 
 PROPS['C06'] = dict(
     id='C06', domains=['trunc', 'unm'], no_model={'trunc': True},
     n=dict(quick=dict(trunc=120, unm=1500), thorough=dict(trunc=1500, unm=60000)),
-    theorems=[('Properties.C06', [])],
+    theorems=[('Properties.C06', ['C06_complete_header_section_survives_any_remainder', 'C06_cut_at_the_end_of_record_marker_is_reported', 'C06_complete_marker_is_accepted'])],
     kinds={'panic', 'hang', 'wellformed-file-not-clean', 'complete-record-lost', 'partial-record-clean', 'truncation-invisible'},
-    rule='TODO', level_text='TODO', level_note='TODO',
+    rule='trunc: well-formed files of 1-3 records (all block kinds, plain or per-record gzip), read under warn or strict: 50 seeded cut positions plus 19 positions around every record boundary per file (thorough: EVERY cut position): records wholly inside the prefix come back unaltered, clean and at the same offsets; nothing clean after them; a cut inside a record is visible (non-EOF error, finding, or EOF offset < prefix length); unm: model correspondence incl. cut gzip members',
+    level_text='PARTIAL proof: mechanised - a complete header section parses to exactly its fields whatever follows it in the stream and whatever the tail condition (so truncation of the remainder cannot alter it); a stream ending inside or right before the end-of-record marker is reported by the marker check under warn/fail; a complete marker is accepted; the parser never consumes beyond its input (C05). Not mechanised: the whole-file statement over all cut positions; it is evaluated on the implementation for the sampled (quick) or all (thorough) cut positions.',
+    level_note='Trusted: Coq kernel, extraction (ExtrOcamlBasic), harness and generators. Oracles: hash functions (Python hashlib), base32/base64 decoders, mime.WordDecoder, net/http header parsing, whatwg-url, net.ParseIP, time.Parse, Unicode case mapping; klauspost gzip (a member is its payload; a cut member yields a payload prefix then io.ErrUnexpectedEOF). bufio.Reader is remaining bytes + a persistent tail condition. Findings are compared by coarse kind derived from error texts. A cut exactly at a record boundary leaves a well-formed file and is not required to be visible.',
+    assumptions=[],
 )
 PROPS['C07'] = dict(
     id='C07', domains=['pol', 'unm', 'validate'], no_model={'pol': True},
     n=dict(quick=dict(pol=2500, unm=1000, validate=300), thorough=dict(pol=100000, unm=40000, validate=20000)),
-    theorems=[('Properties.C07', [])],
+    theorems=[('Properties.C07', ['C07_header_validation_keeps_every_field', 'C07_digest_verification_changes_nothing_with_repairs_off'])],
     kinds={'panic', 'block-shortened', 'short-stream-under-ignore', 'policy-changes-header', 'policy-changes-block', 'value-destroyed'},
-    rule='TODO', level_text='TODO', level_note='TODO',
+    rule='pol: streams with invalid field values, illegal fields, wrong lengths (shorter, longer, non-canonical spelling) and digests, bare-LF line ends, plain or gzip, read under two policy settings with repairs all-off or default: header fields and block bytes equal (repairs off) or differing only in Content-Length / digest fields / appended CRLF (repairs on); every returned record delivers its declared block or an error/finding; unm/validate: model correspondence',
+    level_text='Proved in Coq: header validation under ignore and warn returns exactly the header fields it was given, whatever is wrong with them (the defect that warn replaced invalid values by "" was found here and repaired); with the add/repair options off, length and digest verification never changes a header field under any policy. The block-level clause (complete declared block or explicit error; defect "spec ignore drains the block" found and repaired) is checked by the executable statement and by the unm correspondence; PARTIAL: not yet a theorem about parse_record.',
+    level_note='Trusted: Coq kernel, extraction (ExtrOcamlBasic), harness and generators. Oracles: hash functions (Python hashlib), base32/base64 decoders, mime.WordDecoder, net/http header parsing, whatwg-url, net.ParseIP, time.Parse, Unicode case mapping; klauspost gzip (a member is its payload; a cut member yields a payload prefix then io.ErrUnexpectedEOF). bufio.Reader is remaining bytes + a persistent tail condition. Findings are compared by coarse kind derived from error texts. Known finding: under spec ignore a stream that ends before the declared length yields a silently shortened block.',
+    assumptions=[],
 )
 PROPS['C08'] = dict(
     id='C08', domains=['coh', 'hparse', 'validate', 'unm', 'build'], no_model={'coh': True},
     n=dict(quick=dict(coh=1500, hparse=800, validate=300, unm=600, build=600), thorough=dict(coh=60000, hparse=30000, validate=20000, unm=20000, build=20000)),
-    theorems=[('Properties.C08', [])],
+    theorems=[('Properties.C08', ['C08_header_fail_is_first_warn_finding', 'C08_header_ignore_no_findings', 'C08_header_warn_never_errors', 'C08_digest_verification_coherent'])],
     kinds={'panic', 'policy-incoherent'},
-    rule='TODO', level_text='TODO', level_note='TODO',
+    rule='coh: mutated record streams (parser, plain/gzip) and builder inputs with declared lengths/digests; each run under uniform ignore / warn / fail (no findings under ignore; nil error under fail implies empty validation; fail errs iff warn has a finding or error; rejection monotone) and axis by axis (syntax, spec, unknown type, block) against the other axes as drawn; hparse/validate/unm/build: model correspondence under all policies',
+    level_text='PARTIAL proof: mechanised for header validation (fail returns exactly the first finding warn reports, nil error implies empty validation, ignore produces none, warn never errors) and for length/digest verification (ignore none; warn returns the record; fail turns the first defect into the error). Every check site of the model goes through one policy switch (site); the header parser, parseBlock and the marker check are covered by the executable statement and the correspondence under all 81 policy combinations but their coherence lemmas are not mechanised. The defect that folded header lines ignored the policy was found here and repaired.',
+    level_note='Trusted: Coq kernel, extraction (ExtrOcamlBasic), harness and generators. Oracles: hash functions (Python hashlib), base32/base64 decoders, mime.WordDecoder, net/http header parsing, whatwg-url, net.ParseIP, time.Parse, Unicode case mapping; klauspost gzip (a member is its payload; a cut member yields a payload prefix then io.ErrUnexpectedEOF). bufio.Reader is remaining bytes + a persistent tail condition. Findings are compared by coarse kind derived from error texts. ',
+    assumptions=[],
 )
